@@ -88,8 +88,14 @@ func (c *Ctx) RuleFsAlways(commands []string) *Result {
 					}
 					if call, ok := cond.(*ssa.Call); ok && val && isFn(staticCallee(&call.Call), "bytes", "Equal") {
 						a, b := stripConv(call.Call.Args[0]), stripConv(call.Call.Args[1])
-						if a == data || b == data {
-							return true // nothing to change
+						onDisk := func(v ssa.Value) bool {
+							if ex, ok := v.(*ssa.Extract); ok && ex.Index == 0 && ex.Tuple == ssa.Value(read) {
+								return true
+							}
+							return v == ssa.Value(read)
+						}
+						if (a == data && onDisk(b)) || (b == data && onDisk(a)) {
+							return true // nothing to change: what would be written is what the file holds
 						}
 					}
 					return false
@@ -380,7 +386,7 @@ func (c *Ctx) RuleSuffixOps() *Result {
 				return
 			}
 			f := staticCallee(&call.Call)
-			if f == nil || objPkgPath(f) != "strings" {
+			if f == nil || (objPkgPath(f) != "strings" && objPkgPath(f) != "bytes") {
 				return
 			}
 			switch f.Name() {
@@ -412,6 +418,12 @@ func (c *Ctx) RuleSuffixOps() *Result {
 				}
 				fallthrough
 			case "CutSuffix", "TrimSuffix":
+				// a constant ending ("\n", "\r", ".ra") is not a pair key: line terminators and extensions are other rules' business
+				if len(call.Call.Args) >= 2 {
+					if _, isC := constString(call.Call.Args[1]); isC {
+						return
+					}
+				}
 				// must be skipped for directive and blank lines
 				res.Instances++
 				key := fnName + ":suffix rewrite skips directives"
@@ -502,7 +514,10 @@ func (c *Ctx) RuleSuffixOps() *Result {
 					if rv != nil {
 						resV = rv
 					}
-					for _, l := range naturalLoops(fn) {
+					// innermost loop first: the pair loop, not the line loop around it
+					loopsIn := naturalLoops(fn)
+					sort.Slice(loopsIn, func(i, j int) bool { return len(loopsIn[i].body) < len(loopsIn[j].body) })
+					for _, l := range loopsIn {
 						if !l.body[call.Block()] {
 							continue
 						}
@@ -512,7 +527,7 @@ func (c *Ctx) RuleSuffixOps() *Result {
 							if !ok {
 								continue
 							}
-							if flowsIntoPhi(resV, ph, 0) {
+							if flowsIntoPhi(resV, ph, 0) || flowsIntoPhiThroughAppend(resV, ph, 0) {
 								carried = ph
 							}
 						}
@@ -637,16 +652,35 @@ func loopDeletes(l *natLoop) bool {
 }
 
 func sameEntry(a, b ssa.Value) bool {
+	return sameEntryDepth(a, b, 0, map[ssa.Value]bool{})
+}
+
+func sameEntryDepth(a, b ssa.Value, depth int, seen map[ssa.Value]bool) bool {
 	a, b = stripConv(a), stripConv(b)
 	if a == b {
 		return true
 	}
-	// the entry variable is re-assigned inside the pair loop: accept a phi whose edges include the tested value
-	if p, ok := b.(*ssa.Phi); ok {
-		for _, e := range p.Edges {
-			if stripConv(e) == a {
+	if depth > 5 || seen[b] {
+		return false
+	}
+	seen[b] = true
+	switch x := b.(type) {
+	case *ssa.Phi:
+		// the entry variable is re-assigned inside the pair loop: accept a phi whose edges include the tested value
+		for _, e := range x.Edges {
+			if sameEntryDepth(a, e, depth+1, seen) {
 				return true
 			}
+		}
+	case *ssa.Call:
+		// a copy of the tested line into a buffer of its own: append(buf[:0], line...) / append([]byte(nil), line...)
+		if bi, ok := x.Call.Value.(*ssa.Builtin); ok && bi.Name() == "append" && len(x.Call.Args) == 2 {
+			if isResetValue(stripConv(x.Call.Args[0]), nil) {
+				return sameEntryDepth(a, x.Call.Args[1], depth+1, seen)
+			}
+		}
+		if f := staticCallee(&x.Call); isFn(f, "bytes", "Clone") || isFn(f, "strings", "Clone") {
+			return sameEntryDepth(a, x.Call.Args[0], depth+1, seen)
 		}
 	}
 	return false
@@ -827,6 +861,9 @@ func (c *Ctx) RuleFsWriteDiscipline() *Result {
 			idx := errResultIndex(call.Call.Signature())
 			if idx < 0 {
 				return
+			}
+			if _, noFailure := reasonedDrop(call); noFailure {
+				return // cannot fail (an in-memory read only ever reports io.EOF)
 			}
 			ev := resultValue(call, idx)
 			if ev == nil {
@@ -1085,6 +1122,19 @@ func (c *Ctx) RuleLastIndex() *Result {
 				return ok && bi.Name() == "len" && stripConv(lc.Call.Args[0]) == stripConv(base)
 			}
 			if !lenOf(sub.X) {
+				// len of another value: the two must be the same text
+				if lc, ok := sub.X.(*ssa.Call); ok {
+					if bi, ok := lc.Call.Value.(*ssa.Builtin); ok && bi.Name() == "len" {
+						other := stripConv(lc.Call.Args[0])
+						_, baseStr := base.Type().Underlying().(*types.Basic)
+						_, otherStr := other.Type().Underlying().(*types.Basic)
+						if baseStr && otherStr {
+							res.Instances++
+							res.bad(fmt.Sprintf("%s:%s[len(%s)-%d]", load.FnName(fn), valueLabel(base), valueLabel(other), k), c.P.InstrPos(in),
+								fmt.Sprintf("%s is indexed with the length of %s, a different value (one of them was trimmed, cut or replaced in between): when %s is the shorter one the access is out of range and the command dies with a runtime fault", valueLabel(base), valueLabel(other), valueLabel(base)))
+						}
+					}
+				}
 				return
 			}
 			res.Instances++
@@ -1151,8 +1201,11 @@ func (c *Ctx) RuleExclKey() *Result {
 	var isText func(v ssa.Value) bool
 	isText = func(v ssa.Value) bool {
 		v = stripConv(v)
-		if call, ok := v.(*ssa.Call); ok {
-			return isMeth(staticCallee(&call.Call), "bufio", "Scanner", "Text")
+		if c.isLineText(v, 0) {
+			return true
+		}
+		if _, ok := v.(*ssa.Call); ok {
+			return false
 		}
 		// the parameter of a visit callback that a line-scanning helper calls with scanner.Text()
 		par, ok := v.(*ssa.Parameter)
@@ -2238,4 +2291,103 @@ func (c *Ctx) RuleWalkErr() *Result {
 		}
 	}
 	return res
+}
+
+// isLineText: v is a line of the text being read, as delivered: Scanner.Text /
+// Bytes, or what ReadString / ReadBytes returned with nothing but the line
+// terminator removed (TrimSuffix / TrimRight with a constant made of \r and
+// \n), also through a helper of the repository that returns such a value.
+func (c *Ctx) isLineText(v ssa.Value, depth int) bool {
+	if depth > 5 {
+		return false
+	}
+	v = stripConv(v)
+	readCall := func(call *ssa.Call) bool {
+		f := staticCallee(&call.Call)
+		if f == nil || !(f.Name() == "ReadString" || f.Name() == "ReadBytes") {
+			return false
+		}
+		return (objPkgPath(f) == "bufio" && recvNamed(f) == "Reader") || (objPkgPath(f) == "bytes" && recvNamed(f) == "Buffer")
+	}
+	helperReturns := func(sf *ssa.Function) bool {
+		if sf == nil || !c.P.IsRepoFn(sf) || len(sf.Blocks) == 0 {
+			return false
+		}
+		n, all := 0, true
+		allInstrs(sf, func(in ssa.Instruction) {
+			r, ok := in.(*ssa.Return)
+			if !ok || len(r.Results) == 0 {
+				return
+			}
+			if cs, ok := constString(stripConv(r.Results[0])); ok && cs == "" {
+				return // the "no more lines" return
+			}
+			n++
+			if !c.isLineText(r.Results[0], depth+1) {
+				all = false
+			}
+		})
+		return n > 0 && all
+	}
+	switch x := v.(type) {
+	case *ssa.Call:
+		f := staticCallee(&x.Call)
+		if isMeth(f, "bufio", "Scanner", "Text") || isMeth(f, "bufio", "Scanner", "Bytes") {
+			return true
+		}
+		if f != nil && (objPkgPath(f) == "strings" || objPkgPath(f) == "bytes") && (f.Name() == "TrimSuffix" || f.Name() == "TrimRight") && len(x.Call.Args) == 2 {
+			if cut, ok := constString(stripConv(x.Call.Args[1])); ok && cut != "" && strings.Trim(cut, "\r\n") == "" {
+				return c.isLineText(x.Call.Args[0], depth+1)
+			}
+		}
+		if x.Call.Signature().Results().Len() == 1 {
+			return helperReturns(staticFn(&x.Call))
+		}
+	case *ssa.Extract:
+		if x.Index != 0 {
+			return false
+		}
+		if call, ok := x.Tuple.(*ssa.Call); ok {
+			if readCall(call) {
+				return true
+			}
+			return helperReturns(staticFn(&call.Call))
+		}
+	case *ssa.Phi:
+		if len(x.Edges) == 0 {
+			return false
+		}
+		for _, e := range x.Edges {
+			if e == ssa.Value(x) {
+				continue
+			}
+			if !c.isLineText(e, depth+1) {
+				return false
+			}
+		}
+		return true
+	}
+	return false
+}
+
+// flowsIntoPhiThroughAppend: like flowsIntoPhi, also through append(v, more...) (the byte-slice form of v + more).
+func flowsIntoPhiThroughAppend(v ssa.Value, target *ssa.Phi, depth int) bool {
+	if depth > 6 {
+		return false
+	}
+	for _, r := range referrers(v) {
+		switch x := r.(type) {
+		case *ssa.Phi:
+			if x == target || flowsIntoPhiThroughAppend(x, target, depth+1) {
+				return true
+			}
+		case *ssa.Call:
+			if bi, ok := x.Call.Value.(*ssa.Builtin); ok && bi.Name() == "append" && len(x.Call.Args) > 0 && x.Call.Args[0] == v {
+				if flowsIntoPhiThroughAppend(x, target, depth+1) {
+					return true
+				}
+			}
+		}
+	}
+	return false
 }
